@@ -6,7 +6,7 @@ from common import rng_for
 
 
 def run_render(rep, ctx, label, observers, n_quick, n_thorough, corr_fraction=1.0, include='all', identity=False,
-               extra_pairs=(), big=False, url_rules='jsessionid'):
+               extra_pairs=(), big=False, url_rules='jsessionid', small_caps=False):
     tier = ctx['tier']
     rng = rng_for(ctx['seed'], label)
     n = n_quick if tier == 'quick' else n_thorough
@@ -75,14 +75,59 @@ def run_render(rep, ctx, label, observers, n_quick, n_thorough, corr_fraction=1.
                         'implementation': r['impl'][1] if r['impl'] else None, 'model': r['model']}, no_input=not any_obs)
         rep.obligation('correspondence %s: model htmldiff = _htmldiff (counts and all three strings) on %d fragment pairs' % (label, len(recs)), n_corr == 0)
         rep.extra['trees_outside_modelled_domain'] = outside
+    # ---- the spacer cap: the same documents with a tiny cap (module constant MAX_SPACERS set from outside), so that the
+    # code path beyond the cap is exercised on small pages too; observers and correspondence
+    if small_caps:
+        sub = [d for d in docs if rng.random() < 0.3][:400 if tier == 'quick' else 4000]
+        n_cap = 0
+        cap_pairs = {}
+        for a, b in sub:
+            cap = rng.choice([0, 1, 2, 3, 4, 5, 7, 10])
+            try:
+                with rc.spacer_cap(cap):      # the observers that render again must see the same cap
+                    r = rc.render(a, b, include=include, url_rules=url_rules)
+                    fails = []
+                    for name, obs in observers:
+                        fails += obs(a, b, r)
+            except Exception as e:  # noqa
+                fails = ['html_diff_render raised %s: %s' % (type(e).__name__, e)]
+            rep.count((a, b, cap), a != b)
+            if fails:
+                n_cap += 1
+                if n_cap <= 2:
+                    rep.violation('%s-smallcap-%d' % (label, n_cap), {'what': fails[:4], 'a_text': a, 'b_text': b, 'MAX_SPACERS': cap,
+                                                                      'call': 'html_render_diff.MAX_SPACERS = %d; html_diff_render(a_text, b_text)' % cap})
+            cap_pairs.setdefault(cap, []).append((a, b))
+        rep.obligation('observer %s: property holds with the spacer cap set to 0..10 on %d pairs' % (label, len(sub)), n_cap == 0)
+        if ctx['model_available']:
+            n_corr = 0
+            total = 0
+            for cap, prs in cap_pairs.items():
+                fp = []
+                for a, b in prs:
+                    try:
+                        fp.append(tuple(rl.fragments_of(a, b)))
+                    except Exception:  # noqa
+                        pass
+                for r in rl.correspondence(fp, url_rules=url_rules, max_spacers=cap):
+                    total += 1
+                    if r['mismatch'] or (r['impl'] is None and r['in_domain']):
+                        n_corr += 1
+                        if n_corr <= 2:
+                            rep.violation('%s-correspondence-cap-%d' % (label, n_corr), {
+                                'what': 'model and implementation disagree on _htmldiff with MAX_SPACERS=%d' % cap,
+                                'correspondence': 'Model/RenderMerge.v htmldiff (cap argument) vs _htmldiff with html_render_diff.MAX_SPACERS set',
+                                'disagreements': r['mismatch'] or r.get('exc'), 'old_fragment': r['old'], 'new_fragment': r['new'],
+                                'MAX_SPACERS': cap}, no_input=(n_cap == 0))
+            rep.obligation('correspondence %s: model = _htmldiff under spacer caps 0..10 on %d fragment pairs' % (label, total), n_corr == 0)
     # ---- very large pages: beyond the spacer cap on the real code
     if big:
         import web_monitoring_diff.html_render_diff as h
-        sizes = [(900, 0)] if tier == 'quick' else [(900, 0), (1200, 1), (900, 2), (3000, 0)]
+        sizes = [(900, 0), (900, 2)] if tier == 'quick' else [(900, 0), (1200, 1), (900, 2), (3000, 0), (2000, 2)]
         n_big = 0
         for size, variant in sizes:
             page = rc.big_page(size, variant)
-            page2 = page.replace('para 450', 'para 450 changed').replace('item 450 ', 'item 450 changed ').replace('tail 450', 'tail 450 changed')
+            page2 = page.replace('para 450', 'para 450 changed').replace('item 450 ', 'item 450 changed ').replace('tail %d<' % (size - 20), 'tale %d<' % (size - 20))
             for a, b in ((page, page), (page, page2)):
                 r = rc.render(a, b, include=include)
                 rep.count(('big', size, variant, a == b), True)
